@@ -6,6 +6,7 @@ import GaeaVerif.Model.AuthCheck
   Requests (byte strings as hex atoms):
     (sha1 DATA) (sha256 DATA)             → digest
     (hexdec S)                            → hex.DecodeString(S), error dropped
+    (storedhash S)                        → t | f     isStoredHashPassword(S)
     (native SALT PW) (sha2 SALT PW)       → (ok SCRAMBLE) | panic
     (hashchk RESP SALT ENC)               → (t RESP') | (f RESP')   RESP' = caller's buffer afterwards
     (um clear|hash|sha2 (PW…) SALT AUTH)  → (t PW AUTH') | (f AUTH') | panic
@@ -41,6 +42,8 @@ def model (req : Sexp) : String :=
   | .list [.atom "sha1", d] => match d.asBytes? with | some d => hx (sha1 d) | none => "bad"
   | .list [.atom "sha256", d] => match d.asBytes? with | some d => hx (sha256 d) | none => "bad"
   | .list [.atom "hexdec", d] => match d.asBytes? with | some d => hx (hexDecodeString d) | none => "bad"
+  | .list [.atom "storedhash", d] =>
+    match d.asBytes? with | some d => (if isStoredHashPassword d then "t" else "f") | none => "bad"
   | .list [.atom "native", s, p] =>
     match s.asBytes?, p.asBytes? with
     | some s, some p => match calcPassword sha1 s p with | .ok r => s!"(ok {hx r})" | _ => "panic"
@@ -113,6 +116,13 @@ def oracle (req out : Sexp) : String :=
     | some d, .atom o => if o == hx (sha256 d) then "ok" else "viol sha256-differs"
     | _, _ => "viol unparsable"
   | .list [.atom "hexdec", _] => "ok"      -- standard library, correspondence only
+  | .list [.atom "storedhash", d] =>
+    -- the predicate must single out exactly the entries the reference semantics
+    -- treats as stored hashes ('*' + 40 hex digits)
+    match d.asBytes?, out with
+    | some d, .atom "t" => if isHashedEntry d then "ok" else "viol clear-text-entry-taken-for-stored-hash"
+    | some d, .atom "f" => if isHashedEntry d then "viol stored-hash-entry-taken-for-clear-text" else "ok"
+    | _, _ => "viol unparsable"
   | .list [.atom "native", s, p] =>
     match s.asBytes?, p.asBytes?, out with
     | some s, some p, .list [.atom "ok", r] =>
